@@ -11,7 +11,7 @@ DEPS = {'C01': ['classes', 'dicts', 'simplify', 'shapes', 'lookup', 'values', 'i
         'C10': ['classes', 'valid'],
         'C11': ['stack', 'stackadd'],
         'C12': ['stack', 'stackadd'],
-        'C13': ['classes', 'simplify', 'shapes'],
+        'C13': ['classes', 'dicts', 'simplify', 'shapes', 'values', 'insert', 'content', 'insertall'],
         'C14': ['filter', 'classes', 'content'],
         'C15': ['extract'],
         'C16': ['phoenix'],
@@ -41,6 +41,7 @@ GROUP_THEOREMS = {
     'cli': ['cli_out_name_is_model'],
     'group': ['group_place_is_model', 'group_place_keeps_keys_distinct'],
     'filter': ['key_regex_filter_is_model'],
+    'insertall': ['insert_leaves_other_unchanged', 'insert_on_model_extension'],
     'content': ['filter_meta_filters_every_valid_dictionary', 'filter_meta_is_model', 'clear_slice_meta_is_model', 'get_keys_is_model'],
     'orient': ['check_voxel_order_is_model'],
     'phoenix': ['parse_phoenix_line_is_model', 'parse_phoenix_prot_is_model'],
